@@ -229,7 +229,9 @@ mod repr {
 
             // then use newton's method
             let nm1 = n - 1;
-            let mut guess = UBig::ONE << (self.bit_len() / n); // underestimate
+            // start from an overestimate (self < 2^bits <= guess^n): a Newton step from below
+            // overshoots by about (root/guess)^(n-1) and each later step only gains a factor 1 - 1/n
+            let mut guess = UBig::ONE << ((bits - 1) / n + 1);
             let next = |x: &UBig| {
                 let y = UBig(self / x.pow(nm1).into_repr());
                 (y + x * nm1) / n
